@@ -35,7 +35,7 @@ PCJ == [StdPC EXCEPT !.ops = {"f", "g", "h", "p"}]
 Drifts(r) ==
   {f \in {<<"DRIFT", r.id, k, "infix-parser">> : k \in Idx(r.infix)} :
      LET v == r.infix[f[3]]
-         p == ParseText(v.chars, TRUE, PCJ, FALSE)
+         p == ParseText(v.chars, TRUE, [PCJ EXCEPT !.undef = r.undef], FALSE)
      IN AllOffM(r.m) /\ v.cout = "ok" /\ v.dok /\ (p.r # "ok" \/ ~TreeEq(p.tree, v.dtree))}
 
 Init == l = 1 /\ judged = 0 /\ nontriv = 0 /\ skipped = 0 /\ drift = 0 /\ found = 0
